@@ -30,19 +30,25 @@ def text(rng, n=None, reserved=0.15):
     return " ".join(out)
 
 
+# attributes after a link / image destination: dimensions, and values with characters reserved in the target formats
+ATTRS = [' width="40px"', ' height=2cm width=50%', ' class="a&b"', ' title2="x<y"', ' width="<"', " data-x='q>r'", ' class=c id=d']
+FENCE_LANGS = ["", "c", "{=html}", "perl", "a&b", "x<y", "c++", 'q"r', "{=latex}", "%s_x"]
+
+
 def inline(rng, depth=0):
     k = rng.random()
     t = text(rng, rng.randint(1, 3), 0.05)
     if depth > 2 or k < 0.35:
         return t
     inner = inline(rng, depth + 1)
-    c = rng.choice(["emph", "strong", "code", "link", "reflink", "image", "fn", "cite", "math", "sup", "sub", "critic", "auto", "raw", "abbr", "var", "esc", "quote"])
+    c = rng.choice(["emph", "strong", "code", "link", "reflink", "image", "fn", "cite", "math", "sup", "sub", "critic", "auto", "raw", "abbr", "var", "esc", "quote", "inlinenote"])
     if c == "emph": m = rng.choice("*_"); return "%s%s%s" % (m, inner, m)
     if c == "strong": m = rng.choice(["**", "__"]); return "%s%s%s" % (m, inner, m)
     if c == "code": return "`%s`" % text(rng, 2, 0.4)
-    if c == "link": return "[%s](http://example.com/%s%s)" % (inner, word(rng), rng.choice(["", ' "Title & more"', "?a=1&b=2"]))
+    if c == "link": return "[%s](http://example.com/%s%s%s)" % (inner, word(rng), rng.choice(["", ' "Title & more"', "?a=1&b=2"]), rng.choice(["", "", ATTRS[rng.randrange(len(ATTRS))]]))
     if c == "reflink": return "[%s][%s]" % (inner, rng.choice(["ref", "ref2", ""]))
-    if c == "image": return "![%s](img/%s.png%s)" % (t, word(rng), rng.choice(["", ' "T"']))
+    if c == "image": return "![%s](img/%s.png%s%s%s)" % (t, word(rng), rng.choice(["", "", "?a=1&b=2"]), rng.choice(["", ' "T"']), rng.choice(["", "", ATTRS[rng.randrange(len(ATTRS))]]))
+    if c == "inlinenote": return rng.choice(["[?(%s) %s]", "[>(%s) %s]", "[^%s %s]", "[#%s %s;]", "[?(%s)%s]"]) % (word(rng), t)
     if c == "fn": return "%s[^%s]" % (t, rng.choice(["fn1", "fn2", "missing"]))
     if c == "cite": return "[p. 3][#%s]" % rng.choice(["cite1", "nocite"])
     if c == "math": return rng.choice(["$%s$", "\\\\(%s\\\\)", "$$%s$$"]) % "x^2 + y_1 < z"
@@ -68,7 +74,7 @@ def block(rng, depth=0):
     if c == "atx": n = rng.randint(1, 6); return "#" * n + " " + para(rng) + rng.choice(["", " " + "#" * n, " [label]"])
     if c == "setext": return para(rng) + "\n" + rng.choice(["=====", "-----", "=", "--"])
     if c == "hr": return rng.choice(["* * *", "---", "___", "*****"])
-    if c == "fence": f = rng.choice(["```", "````", "`````"]); return "%s%s\n%s\n%s" % (f, rng.choice(["", "c", "{=html}"]), text(rng, 4, 0.5), f)
+    if c == "fence": f = rng.choice(["```", "````", "`````"]); return "%s%s\n%s\n%s" % (f, rng.choice(FENCE_LANGS), text(rng, 4, 0.5), f)
     if c == "indent": return "    " + text(rng, 3, 0.5) + "\n\tmore <code> & stuff"
     if c == "quote": return "\n".join("> " + l for l in block(rng, depth + 1).split("\n")) if depth < 2 else "> " + para(rng)
     if c in ("bullets", "numbers"):
